@@ -8,7 +8,7 @@ import (
 )
 
 // output fields are dropped and recomputed when a recorded session is re-executed
-var outputFields = []string{"r", "r2", "pl", "pl2", "dm", "panic", "i"}
+var outputFields = []string{"r", "r2", "pl", "pl2", "dm", "panic", "i", "timeout"}
 
 // replay <in.ndjson> <out.ndjson>: re-execute the recorded calls against the library built
 // from the current tree and write the fresh trace.
@@ -24,6 +24,7 @@ func replayMain(args []string) {
 	}
 	defer f.Close()
 	w := newWriter(args[1], 0)
+	timeoutExit = 0 // a replayed session that does not terminate is still a complete replay: the last event says so
 	sc := bufio.NewScanner(f)
 	sc.Buffer(make([]byte, 1<<20), 1<<28)
 	for sc.Scan() {
